@@ -583,3 +583,105 @@ theorem toChunks_given (pal : Palette) (chunks : List CHText.Chunk) :
       obtain ⟨p, q⟩ := e
       cases givenChunks pal (cs.map fun c => Given.byId c.col c.text) <;> simp
 end SgrText
+
+/-! ### `CHText.make` and the routes from a chunk to a `str` -/
+namespace Sgr
+open Ak
+
+theorem mergeGo_inv (P : List Char → List Char → Prop) (cur : Chunk) (cs : List Chunk)
+    (hcur : P cur.pre cur.suf ∧ NoEsc cur.text) (hcs : AllChunks P cs) :
+    AllChunks P (mergeGo cur cs) := by
+  induction cs generalizing cur with
+  | nil => intro c hc; simp [mergeGo] at hc; rw [hc]; exact hcur
+  | cons c cs ih =>
+    have hc := hcs c (by simp)
+    have hrest : AllChunks P cs := fun x hx => hcs x (by simp [hx])
+    simp only [mergeGo]
+    split
+    · exact ih _ ⟨hcur.1, NoEsc_append.mpr ⟨hcur.2, hc.2⟩⟩ hrest
+    · intro x hx
+      simp only [List.mem_cons] at hx
+      rcases hx with rfl | hx
+      · exact hcur
+      · exact ih c hc hrest x hx
+
+theorem plain_mergeGo (cur : Chunk) (cs : List Chunk) :
+    plain (mergeGo cur cs) = cur.text ++ plain cs := by
+  induction cs generalizing cur with
+  | nil => simp [mergeGo, plain]
+  | cons c cs ih =>
+    simp only [mergeGo]
+    split <;> simp [ih, plain]
+
+theorem mergeGo_shows (gs : List (Chunk × Attr)) (hg : ∀ g ∈ gs, Good g.1 g.2)
+    (p : Chunk) (ap : Attr) (hp : Good p ap) (rest : List Char) :
+    run .ground Attr.default (render (mergeGo p (gs.map Prod.fst)) ++ rest) =
+      prepend (p.text.map (fun x => (x, ap)) ++ cellsOf gs) (run .ground Attr.default rest) := by
+  induction gs generalizing p ap with
+  | nil =>
+    simp only [List.map_nil, mergeGo, render, List.append_nil, List.append_assoc, cellsOf]
+    exact run_chunk p ap hp rest
+  | cons g gs ih =>
+    obtain ⟨c, ac⟩ := g
+    have hc : Good c ac := hg (c, ac) (by simp)
+    have hrest : ∀ g ∈ gs, Good g.1 g.2 := fun x hx => hg x (by simp [hx])
+    simp only [List.map_cons, mergeGo, cellsOf]
+    split
+    · rename_i he
+      have : ap = ac := PreShows_unique p.pre ap ac hp.1 (he ▸ hc.1)
+      subst this
+      rw [ih hrest { p with text := p.text ++ c.text } ap ⟨hp.1, hp.2.1, NoEsc_append.mpr ⟨hp.2.2, hc.2.2⟩⟩]
+      simp
+    · simp only [render, List.append_assoc]
+      rw [run_chunk p ap hp, ih hrest c ac hc]
+      simp only [prepend_append]
+
+/-- routes: what is written around the chunk stays outside its sequences -/
+theorem routeStr_shows (l r : List Char) (c : Chunk) (a : Attr) (rt : Route)
+    (hc : Good c a) (hl : NoEsc l) (hr : NoEsc r) :
+    interp (routeStr l r c rt) =
+      some (l.map (fun x => (x, Attr.default)) ++ c.text.map (fun x => (x, a)) ++
+            r.map (fun x => (x, Attr.default)), Attr.default) := by
+  have hend : run .ground Attr.default (r ++ []) =
+      prepend (r.map fun x => (x, Attr.default)) (run .ground Attr.default []) :=
+    run_text Attr.default r [] hr
+  have hbody : run .ground Attr.default (routeBody c rt ++ r) =
+      prepend (c.text.map fun x => (x, a)) (run .ground Attr.default r) := by
+    cases rt with
+    | direct =>
+      have := run_chunk c a hc r
+      simpa [routeBody, render] using this
+    | viaText =>
+      simp only [routeBody]
+      split
+      · rename_i he; simp [he, prepend_nil]
+      · have := run_chunk c a hc r
+        simpa [render] using this
+  unfold interp routeStr
+  rw [List.append_assoc, run_text Attr.default l _ hl, hbody]
+  simp only [List.append_nil] at hend
+  rw [hend]
+  simp [run, prepend]
+
+theorem routeStr_strip (k : CharClass) (fin : Char) (l r : List Char) (c : Chunk) (rt : Route)
+    (hp : Strippable k fin c.pre) (hq : Strippable k fin c.suf)
+    (hl : NoEsc l) (hr : NoEsc r) (ht : NoEsc c.text) :
+    strip k fin (routeStr l r c rt) = l ++ c.text ++ r := by
+  have hr' : strip k fin r = r := by
+    have := strip_text k fin r [] hr
+    simpa [strip_nil] using this
+  have hbody : strip k fin (routeBody c rt ++ r) = c.text ++ r := by
+    have hfull : strip k fin (render [c] ++ r) = c.text ++ r := by
+      simp only [render, List.append_nil, List.append_assoc]
+      rw [hp, strip_text k fin _ _ ht, hq, hr']
+    cases rt with
+    | direct => simpa [routeBody] using hfull
+    | viaText =>
+      simp only [routeBody]
+      split
+      · rename_i he; simp [he, hr']
+      · exact hfull
+  unfold routeStr
+  rw [List.append_assoc, strip_text k fin l _ hl, hbody]
+  simp
+end Sgr
